@@ -78,9 +78,27 @@ class MolEditAdapter:
                 x = self.obj[act["x"]] if self._live(act["x"]) else self._new(act["x"])
                 y = self._new(act["y"])
                 mol.append_bond(ml.Bond(x, y))
+            elif a == "append_bond_par":
+                mol.append_bond(ml.Bond(self.obj[act["y"]], self.obj[act["x"]]))      # same pair, reversed ends
+            elif a in ("append_bonds", "extend_bonds"):
+                ends = {}
+                for t in (act["x1"], act["y1"], act["x2"], act["y2"]):
+                    if t not in ends:
+                        ends[t] = self.obj[t] if self._live(t) else self._new(t)
+                bs = [ml.Bond(ends[act["x1"]], ends[act["y1"]]), ml.Bond(ends[act["x2"]], ends[act["y2"]])]
+                if a == "append_bonds":
+                    mol.append_bonds(*bs)
+                else:
+                    mol.extend_bonds(iter(bs))
             elif a == "del_bond":
                 t1, t2 = list(act["b"])
-                mol.del_bond(mol.lookup_bond(self.obj[t1], self.obj[t2]))
+                o1, o2 = self.obj[t1], self.obj[t2]
+                same = [b for b in mol.bonds if (b.a1 is o1 and b.a2 is o2) or (b.a1 is o2 and b.a2 is o1)]
+                which = act.get("which", "only")
+                if which == "only":
+                    mol.del_bond(mol.lookup_bond(o1, o2))
+                else:
+                    mol.del_bond(same[0] if which == "first" else same[-1])       # the bond OBJECT that is passed
             elif a == "del_atom":
                 by = act["by"]
                 if by == "object":
@@ -183,6 +201,7 @@ class MolEditAdapter:
                 else:
                     chg_tok.append(f"other:{float(Q[i]):.3f}")
         bonds = []
+        dbl = []
         parents = True
         try:
             for b in mol.bonds:
@@ -197,5 +216,12 @@ class MolEditAdapter:
                     parents = False
         except Exception:
             parents = False
-        return {"atoms": tags, "coords": coords_tok, "chgs": chg_tok, "bonds": sorted(bonds), "aligned": aligned,
-                "parents": parents}
+        uniq = sorted(set(map(tuple, bonds)))
+        for p in uniq:
+            n_ = bonds.count(list(p))
+            if n_ == 2:
+                dbl.append(list(p))
+            elif n_ > 2:
+                dbl.append(list(p) + [f"x{n_}"])
+        return {"atoms": tags, "coords": coords_tok, "chgs": chg_tok, "bonds": [list(p) for p in uniq], "dbl": dbl,
+                "aligned": aligned, "parents": parents}
